@@ -9,11 +9,12 @@
      strconv/atoi.go (go1.23)        ParseUint / ParseInt / Atoi / underscoreOK, byte by byte
      pflag flag.go        parseArgs / parseLongArg / parseShortArg / parseSingleShortArg
      cobra command.go     execute: ParseFlags, help, ValidateArgs, ValidateRequiredFlags, ValidateFlagGroups
-     regexp/syntax/parse.go   only the classification "compiles / does not compile" for a sublanguage
-                          (see [rx_scan]); outside it the model answers [RxUnknown] and predicts nothing
+     regexp/syntax/parse.go   "compiles / does not compile" on every string: Model/RxSyntax.v [rx_valid]
 
    Executable definitions only; Proofs/FlagsProofs.v has the lemmas. *)
 From Coq Require Import ZArith List Bool.
+(* Model.RxSyntax first: the names of the modules after it take precedence (is_letter, is_digit, decode ...) *)
+From Knut Require Import Model.RxSyntax.
 From Knut Require Import Model.Str Model.Date Model.Utf8 Model.UnicodeTables.
 Import ListNotations.
 Open Scope bool_scope.
@@ -197,142 +198,8 @@ Definition commodity_name_ok (s : str) : bool :=
 
 (* ---------------------------------------------------------------- regexp.Compile: does it compile? *)
 
-(* The sublanguage whose classification is modelled (regexp/syntax/parse.go, Perl flags):
-     ASCII bytes 0x20..0x7e; literals; ^ $ . |; groups ( ), (?flags) and (?flags: with flags from
-     imsU and one '-'; * + ? with an optional lazy '?'; {n} {n,} {n,m} (an incomplete one is a
-     literal '{'); '\' at the very end (an error), '\' followed by an ASCII punctuation byte or one
-     of d s w D S W A z b B a f n r t v (an atom); '[' when no ']' follows anywhere (an error).
-   Everything else is [RxUnknown]: other escapes, bracket expressions that may close, named groups,
-   bytes outside printable ASCII, a second counted repetition with a bound above 1 (nested
-   repetition sizes are limited by a product rule the model does not follow) and patterns longer
-   than 500 bytes (the parser's height and size limits cannot be reached below that). *)
-Inductive rxres := RxOk | RxBad | RxUnknown.
-
-(* the scanner's mode: between tokens; just after '(' ; inside (?flags ; inside {min ; inside {min,max *)
-Inductive rxmode :=
-| MNormal
-| MParen
-| MPerl (neg sawflag : bool)
-| MMin (n : Z) (len : Z) (lead0 : bool)
-| MMax (mn : Z) (n : Z) (len : Z) (lead0 : bool)
-| MEsc.
-
-Record rxstate := mkRxS {
-  rs_depth : Z;        (* open groups *)
-  rs_atom : bool;      (* the top of the parser's stack is an operand a repetition can apply to *)
-  rs_rep : bool;       (* the previous token was a repetition operator (lastRepeat <> "") *)
-  rs_lazy : bool;      (* ... and a '?' directly after it is its non-greedy marker *)
-  rs_counted : bool }. (* a counted repetition with a bound >= 2 has been seen *)
-
-Definition is_punct (c : Z) : bool :=
-  (32 <=? c) && (c <=? 126) && negb (is_dec c) && negb ((97 <=? c) && (c <=? 122)) && negb ((65 <=? c) && (c <=? 90)).
-Definition is_esc_letter (c : Z) : bool :=
-  existsb (Z.eqb c) [100;115;119;68;83;87;65;122;98;66;97;102;110;114;116;118].
-
-Definition st_atom (st : rxstate) : rxstate := mkRxS (rs_depth st) true false false (rs_counted st).
-
-(* a repetition operator at this point: Some new state, or None for an error *)
-Definition apply_repeat (st : rxstate) (counted_big : bool) : option (option rxstate) :=
-  if rs_rep st then Some None                      (* invalid nested repetition operator *)
-  else if negb (rs_atom st) then Some None         (* missing argument to repetition operator *)
-  else if counted_big && rs_counted st then None   (* the product rule: not modelled *)
-  else Some (Some (mkRxS (rs_depth st) true true true (rs_counted st || counted_big))).
-
-Inductive rxstep := StepTo (m : rxmode) (st : rxstate) | StepBad | StepUnknown.
-
-(* one byte in mode MNormal *)
-Definition step_normal (c : Z) (rest : str) (st : rxstate) : rxstep :=
-  if negb ((32 <=? c) && (c <=? 126)) then StepUnknown
-  else if c =? 40 then StepTo MParen st                                           (* ( *)
-  else if c =? 41 then                                                            (* ) *)
-    if rs_depth st <=? 0 then StepBad else StepTo MNormal (mkRxS (rs_depth st - 1) true false false (rs_counted st))
-  else if c =? 124 then StepTo MNormal (mkRxS (rs_depth st) false false false (rs_counted st))   (* | *)
-  else if (c =? 42) || (c =? 43) then                                             (* * + *)
-    match apply_repeat st false with
-    | Some (Some st') => StepTo MNormal st' | Some None => StepBad | None => StepUnknown end
-  else if c =? 63 then                                                            (* ? *)
-    if rs_rep st && rs_lazy st then StepTo MNormal (mkRxS (rs_depth st) true true false (rs_counted st))
-    else match apply_repeat st false with
-         | Some (Some st') => StepTo MNormal st' | Some None => StepBad | None => StepUnknown end
-  else if c =? 123 then StepTo (MMin 0 0 false) st                                (* { *)
-  else if c =? 92 then (match rest with [] => StepBad | _ => StepTo MEsc st end)  (* \ *)
-  else if c =? 91 then (if existsb (Z.eqb 93) rest then StepUnknown else StepBad) (* [ *)
-  else StepTo MNormal (st_atom st).
-
-Definition size_ok (mn : Z) (mx : option Z) : bool :=
-  (mn <=? 1000) && match mx with Some m => (m <=? 1000) && (mn <=? m) | None => true end.
-Definition size_big (mn : Z) (mx : option Z) : bool :=
-  (2 <=? mn) || match mx with Some m => 2 <=? m | None => false end.
-
-(* the closing brace of a well-formed {min[,[max]]} *)
-Definition close_repeat (st : rxstate) (mn : Z) (mx : option Z) : rxstep :=
-  if negb (size_ok mn mx) then StepBad
-  else match apply_repeat st (size_big mn mx) with
-       | Some (Some st') => StepTo MNormal st' | Some None => StepBad | None => StepUnknown end.
-
-(* The scanner.  A '{' that does not start a well-formed repetition is a literal, and so are the
-   digits and the comma read while finding that out: the state after them is that of an atom, and
-   the byte that broke the form is read again in normal mode ([again]). *)
-Fixpoint rx_scan (s : str) (m : rxmode) (st : rxstate) : rxres :=
-  match s with
-  | [] =>
-    match m with
-    | MParen => RxBad                                  (* missing closing ) *)
-    | MPerl _ _ => RxBad
-    | MEsc => RxBad
-    | _ => if rs_depth st =? 0 then RxOk else RxBad
-    end
-  | c :: rest =>
-    let normal (st0 : rxstate) :=
-      match step_normal c rest st0 with
-      | StepTo m' st' => rx_scan rest m' st'
-      | StepBad => RxBad
-      | StepUnknown => RxUnknown
-      end in
-    match m with
-    | MNormal => normal st
-    | MParen =>
-      if c =? 63 then rx_scan rest (MPerl false false) st
-      else normal (mkRxS (rs_depth st + 1) false false false (rs_counted st))
-    | MPerl neg saw =>
-      if (c =? 105) || (c =? 109) || (c =? 115) || (c =? 85) then rx_scan rest (MPerl neg true) st
-      else if c =? 45 then (if neg then RxBad else rx_scan rest (MPerl true false) st)
-      else if c =? 58 then
-        if neg && negb saw then RxBad
-        else rx_scan rest MNormal (mkRxS (rs_depth st + 1) false false false (rs_counted st))
-      else if c =? 41 then
-        if neg && negb saw then RxBad
-        else rx_scan rest MNormal (mkRxS (rs_depth st) (rs_atom st) false false (rs_counted st))
-      else if (c =? 80) || (c =? 60) then RxUnknown
-      else if (32 <=? c) && (c <=? 126) then RxBad
-      else RxUnknown
-    | MEsc =>
-      if is_punct c || is_esc_letter c then rx_scan rest MNormal (st_atom st) else RxUnknown
-    | MMin n len lead0 =>
-      if is_dec c then
-        if lead0 then normal (st_atom st)               (* "{0" followed by a digit: not a repetition *)
-        else rx_scan rest (MMin (n * 10 + (c - 48)) (len + 1) ((len =? 0) && (c =? 48))) st
-      else if len =? 0 then normal (st_atom st)
-      else if c =? 44 then rx_scan rest (MMax n 0 0 false) st
-      else if c =? 125 then
-        match close_repeat st n (Some n) with
-        | StepTo m' st' => rx_scan rest m' st' | StepBad => RxBad | StepUnknown => RxUnknown end
-      else normal (st_atom st)
-    | MMax mn n len lead0 =>
-      if is_dec c then
-        if lead0 then normal (st_atom st)
-        else rx_scan rest (MMax mn (n * 10 + (c - 48)) (len + 1) ((len =? 0) && (c =? 48))) st
-      else if c =? 125 then
-        match close_repeat st mn (if len =? 0 then None else Some n) with
-        | StepTo m' st' => rx_scan rest m' st' | StepBad => RxBad | StepUnknown => RxUnknown end
-      else normal (st_atom st)
-    end
-  end.
-
-Definition rx_init : rxstate := mkRxS 0 false false false false.
-
-Definition rx_class (s : str) : rxres :=
-  if 500 <? Z.of_nat (length s) then RxUnknown else rx_scan s MNormal rx_init.
+(* regexp.Compile(s) fails exactly when regexp/syntax.Parse(s, syntax.Perl) does; Model/RxSyntax.v follows
+   that parser on every byte string ([rx_valid], total: Proofs/RxSyntaxProofs.v). *)
 
 (* what the accepted pattern matches, for the patterns Model/Str.v can express: alternatives of
    ^?literal$? (plain bytes), ".*" (everything) and "$^" (only the empty string) *)
@@ -374,17 +241,13 @@ Fixpoint split_first (c : Z) (s : str) : str * option str :=
   end.
 
 Inductive merr := MShape | MInt | MNegative | MRegex.
-Inductive mres := MapOk (level suffix : Z) (rx : option str) | MapErr (e : merr) | MapUnknown.
+Inductive mres := MapOk (level suffix : Z) (rx : option str) | MapErr (e : merr).
 
 Definition mapping_finish (level suffix : Z) (rxpart : option str) : mres :=
   if (level <? 0) || (suffix <? 0) then MapErr MNegative
   else match rxpart with
        | None => MapOk level suffix None
-       | Some r => match rx_class r with
-                   | RxOk => MapOk level suffix (Some r)
-                   | RxBad => MapErr MRegex
-                   | RxUnknown => MapUnknown
-                   end
+       | Some r => if rx_valid r then MapOk level suffix (Some r) else MapErr MRegex
        end.
 
 (* strings.SplitN(v, ",", 2), strings.Split(s[0], ":") with 1 or 2 parts, strconv.Atoi, the sign
@@ -415,7 +278,7 @@ Inductive fvalue :=
 | VStr (s : str).
 
 Inductive verr := EBool | EIntSyntax | EIntRange | EDate | ERegex | EMapShape | EMapInt | EMapNegative | EMapRegex.
-Inductive vres := VOk (v : fvalue) | VErr (e : verr) | VUnknown.
+Inductive vres := VOk (v : fvalue) | VErr (e : verr).
 
 Definition int_value (bits : Z) (s : str) : vres :=
   match parse_int s 0 bits with
@@ -431,7 +294,7 @@ Definition parse_value (k : fkind) (s : str) : vres :=
   | KInt64 => int_value 64 s
   | KInt32 => int_value 32 s
   | KDate => match parse_date_flag s with Some d => VOk (VDate d) | None => VErr EDate end
-  | KRegex => match rx_class s with RxOk => VOk (VRegex s) | RxBad => VErr ERegex | RxUnknown => VUnknown end
+  | KRegex => if rx_valid s then VOk (VRegex s) else VErr ERegex
   | KMapping =>
     match parse_mapping s with
     | MapOk l sf r => VOk (VRule l sf r)
@@ -439,7 +302,6 @@ Definition parse_value (k : fkind) (s : str) : vres :=
     | MapErr MInt => VErr EMapInt
     | MapErr MNegative => VErr EMapNegative
     | MapErr MRegex => VErr EMapRegex
-    | MapUnknown => VUnknown
     end
   | KString => VOk (VStr s)
   end.
@@ -489,8 +351,7 @@ Inductive argstep :=
 | ASets (l : list setting) (used_next : bool)
 | APos
 | ADashDash
-| AErr (e : perr)
-| AUnknown.
+| AErr (e : perr).
 
 Definition k_true : str := [116;114;117;101].
 
@@ -498,7 +359,6 @@ Definition set_flag (d : fdef) (v : str) : argstep :=
   match parse_value (f_kind d) v with
   | VOk x => ASets [(f_name d, x)] false
   | VErr e => AErr (PInvalid (f_name d) e)
-  | VUnknown => AUnknown
   end.
 
 (* parseLongArg on the text after "--" *)
@@ -571,7 +431,7 @@ Definition arg_step (defs : list fdef) (s : str) (next : option str) : argstep :
   | _ => APos                                            (* "", "-", anything not starting with '-' *)
   end.
 
-Inductive pres := PArgs (sets : list setting) (pos : list str) | PErr (e : perr) | PUnknown.
+Inductive pres := PArgs (sets : list setting) (pos : list str) | PErr (e : perr).
 
 Definition pres_add (l : list setting) (p : list str) (r : pres) : pres :=
   match r with PArgs s q => PArgs (l ++ s) (p ++ q) | r => r end.
@@ -583,7 +443,6 @@ Fixpoint parse_args (defs : list fdef) (args : list str) : pres :=
   | s :: rest =>
     match arg_step defs s (hd_error rest) with
     | AErr e => PErr e
-    | AUnknown => PUnknown
     | APos => pres_add [] [s] (parse_args defs rest)
     | ADashDash => PArgs [] rest
     | ASets l false => pres_add l [] (parse_args defs rest)
@@ -699,14 +558,12 @@ Definition has_multiperiod (c : command) : bool :=
 Inductive cmdline :=
 | CLRun (sets : list setting) (pos : list str)   (* the command's Run function is called *)
 | CLHelp                                        (* usage on stdout, exit 0 *)
-| CLRejected (e : perr)                         (* usage error: exit 1 before Run *)
-| CLUnknown.
+| CLRejected (e : perr).                        (* usage error: exit 1 before Run *)
 
 (* cobra's Command.execute up to Run, on the arguments after the command words *)
 Definition parse_cmdline (c : command) (argv : list str) : cmdline :=
   match parse_args (cmd_flags c) argv with
   | PErr e => CLRejected e
-  | PUnknown => CLUnknown
   | PArgs sets pos =>
     if get_bool n_help false sets then CLHelp
     else if negb (match c with CmdFormat => true | _ => Z.of_nat (length pos) =? 1 end)
